@@ -305,8 +305,15 @@ func writeGroupIni(cmd *Command, group *Group, namespace string, writer io.Write
 	}
 }
 
+// iniNeedsQuote returns true for a string which would not be read back as is
+// when written unquoted: the reader trims surrounding whitespace and unquotes
+// values starting with a double quote.
+func iniNeedsQuote(s string) bool {
+	return !isPrint(s) || strings.TrimSpace(s) != s || strings.HasPrefix(s, "\"")
+}
+
 func writeOption(writer io.Writer, optionName string, optionType reflect.Kind, optionKey string, optionValue string, commentOption bool, forceQuote bool) {
-	if forceQuote || (optionType == reflect.String && !isPrint(optionValue)) {
+	if forceQuote || (optionType == reflect.String && iniNeedsQuote(optionValue)) {
 		optionValue = strconv.Quote(optionValue)
 	}
 
